@@ -316,6 +316,8 @@ namespace sqf::runtime
         // Start of the current run (execute call), what max_runtime is measured against
         std::chrono::system_clock::time_point m_run_timestamp;
         bool m_runtime_error;
+        // Number printing mode set by toFixed (-1: default formatting); per runtime, not per process
+        int m_number_decimals = -1;
 
         std::chrono::system_clock::time_point m_created_timestamp;
         std::chrono::system_clock::time_point m_current_time;
@@ -357,6 +359,8 @@ namespace sqf::runtime
         std::chrono::system_clock::time_point runtime_timestamp() { return m_runtime_timestamp; }
         void runtime_timestamp_reset() { m_runtime_timestamp = std::chrono::system_clock::now(); }
         std::chrono::system_clock::time_point run_timestamp() { return m_run_timestamp; }
+        int number_decimals() const { return m_number_decimals; }
+        void number_decimals(int decimals) { m_number_decimals = decimals; }
         bool max_runtime_reached() { return m_configuration.max_runtime != std::chrono::milliseconds::zero() && m_configuration.max_runtime + m_run_timestamp < std::chrono::system_clock::now(); }
 
         sqf::runtime::confighost& confighost() { return m_confighost; }
